@@ -21,7 +21,13 @@ RULE = ("lev: autocorrelation lags synthesised from chosen rational reflection v
         "conjugate pairs (rational parts; radius <, =, > 1; root 0) times a gain from {1,-1,2,-1/3,5/7}; every multiset "
         "of <= 2 chosen roots exhaustively, every chosen root with multiplicity 2..4 (on-circle roots included), random "
         "multisets up to degree 6 (quick) / 10 (thorough). Non-trivial = degree >= 2. coef: every "
-        "denominator [a0,a1,a2] on a rational grid (decided by the Jury conditions) and random coefficient lists.")
+        "denominator [a0,a1,a2] on a rational grid (decided by the Jury conditions) and random coefficient lists. "
+        "hist: histories of 2-5 calls in one process on shared objects: the same dyadic root-built denominator as exact, "
+        "float, Fraction and int filters (different gains, built from lists / z-expressions / factor products) in "
+        "twin-first, exact-first and sandwich order; one lag container (list, tuple, deque, bounded deque; generator and "
+        "iterator must raise TypeError) analysed with over-long, default and short orders in turn and re-read after every "
+        "call; parcor run twice and as two interleaved generators on one filter object. Every step on exact objects "
+        "must equal the per-call model / spec on the original values.")
 EXHAUSTIVE = {"quick": False, "thorough": False}
 trusted_base = ["coefficients are exact rationals (ExactQ); the float 0.0 that Poly returns for an absent coefficient is "
                 "absorbed exactly",
@@ -313,7 +319,7 @@ def gen_stab(tier, rng):
       yield case([rt], g, ["exh", "n=1", cls([rt])])
   for i, a in enumerate(ALL_ROOTS):
     for b in ALL_ROOTS[i:]:
-      for g in (GAINS if tier == "thorough" else [GAINS[(i + len(b)) % 5], GAINS[(i + 2) % 5]]):
+      for g in (GAINS if tier == "thorough" else [GAINS[(i + ALL_ROOTS.index(b)) % 5]]):
         yield case([a, b], g, ["exh", "n=2", cls([a, b])])
   # repeated roots: every chosen root with multiplicity 2 and 3 (4 in the thorough tier), alone and next to a
   # stable factor; roots ON the unit circle with multiplicity are the critical cases
@@ -429,3 +435,239 @@ FAMILIES = {
   "stab": Family("stab", IMPORTS, "scase", "corr_stab", "holds_stab", gen_stab, run_stab, lit_stab, nontrivial_stab, timeout=30),
   "coef": Family("coef", IMPORTS, "ccase", "corr_coef", "holds_coef", gen_coef, run_coef, lit_coef, nontrivial_coef, timeout=30),
 }
+
+
+# ------------------------------------------------------------------ family hist (round 2: histories in one process)
+# Shared objects are created ONCE per history and reused by its steps: filters (exact ExactQ coefficients or their
+# float / Fraction / int twins with the same dyadic values, built from lists, from z-expressions or as products of
+# factor filters, with a gain) and lag containers (list, tuple, deque, bounded deque, generator, iterator).  Every
+# step on exact objects must equal the per-call model on the ORIGINAL values; the container is re-read after each call.
+DY_REAL = [F(0), F(1, 2), F(-1, 2), F(1, 4), F(-3, 4), F(7, 8), F(-7, 8), F(3, 8), F(-3, 8), F(1, 8)]
+DY_ON = [(F(1), F(0)), (F(-1), F(0)), (F(0), F(1)), (F(0), F(1)), (F(0), F(1))]
+DY_OUT = [(F(5, 4), F(0)), (F(-3, 2), F(0)), (F(2), F(0)), (F(1), F(1)), (F(0), F(3, 2)), (F(3, 4), F(3, 4))]
+DY_IN = [(x, F(0)) for x in DY_REAL] + [(F(0), F(1, 2)), (F(1, 2), F(1, 2)), (F(-1, 4), F(1, 2)), (F(1, 2), F(3, 4))]
+DY_GAINS = [F(1), F(-1), F(2), F(-3, 2), F(4), F(1, 2)]
+
+
+def _conv(elt):
+  if elt == "q": return lambda v: ExactQ(F(v))
+  if elt == "f": return lambda v: float(F(v))
+  if elt == "F": return lambda v: F(v)
+  if elt == "i": return lambda v: int(v) if F(v).denominator == 1 else float(F(v))
+  raise ValueError(elt)
+
+
+def gen_hist(tier, rng):
+  n = 260 if tier == "quick" else 3000
+  for idx in range(n):
+    kind = idx % 5
+    if kind in (0, 1):                      # stability verdicts: twins of the same monic denominator
+      deg_target = rng.randrange(2, 7)
+      roots, deg = [], 0
+      crit = rng.random()
+      if crit < 0.6: roots.append(rng.choice(DY_ON))
+      elif crit < 0.75: roots.append(rng.choice(DY_OUT))
+      deg = sum(1 if r[1] == 0 else 2 for r in roots)
+      while deg < deg_target:
+        rt = rng.choice(DY_IN); d = 1 if rt[1] == 0 else 2
+        if deg + d > deg_target + 1: continue
+        roots.append(rt); deg += d
+      rng.shuffle(roots)
+      filters, steps = {}, []
+      twins = rng.sample(["f", "F", "i"], rng.randrange(1, 3))
+      order = rng.choice(["twin-first", "twin-first", "exact-first", "sandwich"])
+      names = []
+      for j, elt in enumerate(["q"] + twins):
+        g = rng.choice(DY_GAINS)
+        nm = "%s%d" % (elt, j)
+        filters[nm] = {"roots": [[fr(x), fr(y)] for x, y in roots], "gain": fr(g), "elt": elt,
+                       "den": [fr(x) for x in den_from_roots(g, roots)], "build": rng.choice(["list", "expr", "mul"])}
+        names.append(nm)
+      ex, tw = names[0], names[1:]
+      if order == "twin-first": seq = tw + [ex]
+      elif order == "exact-first": seq = [ex] + tw + [ex]
+      else: seq = tw[:1] + [ex] + tw + [ex]
+      if rng.random() < 0.3:                # a second exact object with another gain: same monic polynomial
+        g2 = rng.choice(DY_GAINS)
+        filters["q9"] = dict(filters[ex], gain=fr(g2), den=[fr(x) for x in den_from_roots(g2, roots)], build="list")
+        seq.append("q9")
+      yield {"filters": filters, "lags": {}, "steps": [["stab", s] for s in seq],
+             "tags": ["stab-twins", order, "crit" if crit < 0.6 else "noncrit"]}
+    elif kind in (2, 3):                    # lag containers reused by several calls
+      p = rng.randrange(1, 6)
+      ks = [rng.choice(KS_IN) for _ in range(p)]
+      if rng.random() < 0.2: ks[rng.randrange(p)] = F(0)
+      r = lags_from_ks(ks, rng.choice(R0S))
+      ckind = rng.choice(["list", "list", "tuple", "deque", "deque_bounded"])
+      lags = {"L": {"vals": [fr(x) for x in r], "kind": ckind, "elt": "q"}}
+      n_ = len(r)
+      orders = [rng.choice([n_, n_ + 1, n_ + 3]), None, rng.choice([None, n_ - 1, 1, n_ + 2]), None]
+      if rng.random() < 0.3: orders = [None] + orders
+      steps = [["lev", "L", o] for o in orders[:rng.randrange(2, len(orders) + 1)]]
+      if rng.random() < 0.4:                # a float twin of the same lags analysed first
+        lags["T"] = {"vals": [fr(x) for x in r], "kind": "list", "elt": "f"}
+        steps = [["lev", "T", rng.choice([None, n_ + 1])]] + steps
+      if rng.random() < 0.5:
+        steps.insert(rng.randrange(1, len(steps) + 1), ["levpc", "L", rng.choice([None, n_ + 1])])
+      yield {"filters": {}, "lags": lags, "steps": steps, "tags": ["lags", ckind]}
+    else:                                   # kinds the code cannot take, and parcor twice on one filter object
+      r = lags_from_ks([rng.choice(KS_IN) for _ in range(rng.randrange(1, 4))], F(1))
+      lags = {"G": {"vals": [fr(x) for x in r], "kind": rng.choice(["gen", "iter"]), "elt": "q"},
+              "L": {"vals": [fr(x) for x in r], "kind": "list", "elt": "q"}}
+      p = rng.randrange(1, 6)
+      ks = [rng.choice(KS_IN + KS_OUT[:1]) for _ in range(p)]
+      if rng.random() < 0.3: ks[rng.randrange(p)] = rng.choice([F(1), F(-1), F(0)])
+      d = rng.choice([F(1), F(2), F(-1, 3)])
+      pcs = {"P": {"num": [fr(a * d) for a in rebuild_first_to_last(ks)], "den": [fr(d)],
+                   "build": rng.choice(["list", "expr"])}}
+      steps = [["lev", "G", rng.choice([None, 2])], ["pc2", "P"], ["levpc", "L", None], ["pc2", "P"]]
+      rng.shuffle(steps)
+      yield {"filters": {}, "lags": lags, "pcs": pcs, "steps": steps[:rng.randrange(2, 5)], "tags": ["kinds+pc2"]}
+
+
+def _build_filter(spec, num=None):
+  """ZFilter for 1/den (or num/den) with the requested element type and construction style."""
+  import audiolazy
+  z = audiolazy.z
+  conv = _conv(spec.get("elt", "q"))
+  den = [conv(unfr(p)) for p in spec["den"]]
+  numl = [conv(1)] if num is None else [conv(unfr(p)) for p in num]
+  build = spec.get("build", "list")
+  if build == "expr":
+    poly = lambda cs: sum(c * z ** -i for i, c in enumerate(cs))
+    return poly(numl) / poly(den)
+  if build == "mul" and num is None and "roots" in spec:
+    d = audiolazy.ZFilter([conv(1)])
+    for x, y in spec["roots"]:
+      x, y = unfr(x), unfr(y)
+      d = d * audiolazy.ZFilter([conv(c) for c in factor(x, y)])
+    return 1 / (conv(unfr(spec["gain"])) * d)
+  return audiolazy.ZFilter(numl, den)
+
+
+def _build_lags(spec):
+  import collections
+  conv = _conv(spec["elt"])
+  vals = [conv(unfr(p)) for p in spec["vals"]]
+  k = spec["kind"]
+  if k == "list": return vals
+  if k == "tuple": return tuple(vals)
+  if k == "deque": return collections.deque(vals)
+  if k == "deque_bounded": return collections.deque(vals, maxlen=len(vals))
+  if k == "gen": return (v for v in vals)
+  if k == "iter": return iter(vals)
+  raise ValueError(k)
+
+
+def _fr_safe(x):
+  f = to_frac(x)
+  if f is None:
+    raise ArithmeticError("non-finite")
+  return fr(f)
+
+
+def _lev_obs(audiolazy, obj, order):
+  try:
+    filt = audiolazy.levinson_durbin(obj, order) if order is not None else audiolazy.levinson_durbin(obj)
+    lev = {"num": [_fr_safe(x) for x in filt.numerator], "err": _fr_safe(filt.error)}
+  except Exception as e:
+    return None, {"raise": type(e).__name__}
+  return filt, lev
+
+
+def _interleaved(audiolazy, filt, cap):
+  """Two live parcor generators of the same filter object, consumed alternately."""
+  outs, errs = [[], []], [False, False]
+  try:
+    gens = [audiolazy.parcor(filt), audiolazy.parcor(filt)]
+    live = [True, True]
+    while any(live):
+      for i in (0, 1):
+        if live[i]:
+          try:
+            outs[i].append(_fr_safe(next(gens[i])))
+            if len(outs[i]) > cap: return {"raise": "EndlessGenerator"}
+          except StopIteration:
+            live[i] = False
+          except audiolazy.ParCorError:
+            live[i] = False; errs[i] = True
+  except Exception as e:
+    return {"raise": type(e).__name__}
+  if outs[0] != outs[1] or errs[0] != errs[1]:      # report the one that differs from a fresh sequential run later
+    return {"ks": outs[1], "err": errs[1], "other": outs[0]}
+  return {"ks": outs[0], "err": errs[0]}
+
+
+def run_hist(c):
+  import audiolazy
+  filters = {k: _build_filter(v) for k, v in c.get("filters", {}).items()}
+  lags = {k: _build_lags(v) for k, v in c.get("lags", {}).items()}
+  pcs = {k: _build_filter(dict(v, elt="q"), num=v["num"]) for k, v in c.get("pcs", {}).items()}
+  out = []
+  for st in c["steps"]:
+    if st[0] == "stab":
+      try:
+        b = audiolazy.parcor_stable(filters[st[1]])
+        out.append({"stable": b} if b is True or b is False else {"raise": "NotABool"})
+      except Exception as e:
+        out.append({"raise": type(e).__name__})
+    elif st[0] in ("lev", "levpc"):
+      spec, obj = c["lags"][st[1]], lags[st[1]]
+      filt, lev = _lev_obs(audiolazy, obj, st[2])
+      cap = len(spec["vals"]) + (st[2] or 0) + 8
+      pc = observe_parcor(lambda: filt, cap) if filt is not None else {"raise": "skipped"}
+      after = None
+      if spec["kind"] not in ("gen", "iter"):
+        try: after = [_fr_safe(x) for x in obj]
+        except Exception as e: after = [[type(e).__name__]]
+      o = {"lev": lev, "pc": pc, "after": after}
+      if st[0] == "levpc" and filt is not None:       # parcor again on the SAME returned filter, then interleaved
+        o["pc_again"] = observe_parcor(lambda: filt, cap)
+        o["pc_inter"] = _interleaved(audiolazy, filt, cap)
+      out.append(o)
+    elif st[0] == "pc2":
+      filt = pcs[st[1]]
+      cap = len(c["pcs"][st[1]]["num"]) + 8
+      out.append({"pc_again": observe_parcor(lambda: filt, cap), "pc_inter": _interleaved(audiolazy, filt, cap)})
+  return {"steps": out}
+
+
+def lit_hist(c, o):
+  steps = o.get("steps")
+  if steps is None or len(steps) != len(c["steps"]):
+    return L.lst(["HExn %s %s" % (L.string("HarnessFailure"), L.string("none"))])
+  lits = []
+  for st, so in zip(c["steps"], steps):
+    if st[0] == "stab":
+      spec = c["filters"][st[1]]
+      roots = L.lst(["(%s, %s)" % (q(x), q(y)) for x, y in spec["roots"]])
+      lits.append("HStab %s %s %s %s %s" % (L.boolean(spec["elt"] == "q"), roots, q(spec["gain"]), ql(spec["den"]),
+                                           obs_lit(so, lambda v: L.boolean(v["stable"]))))
+    elif st[0] in ("lev", "levpc"):
+      spec = c["lags"][st[1]]
+      if spec["kind"] in ("gen", "iter"):
+        lits.append("HExn %s %s" % (L.string(so["lev"].get("raise", "NoError")), L.string("TypeError")))
+        continue
+      vals = spec["vals"] if spec["elt"] == "q" else [fr(F(float(unfr(p)))) for p in spec["vals"]]
+      after = so["after"]
+      if after is None or any(len(a) != 2 for a in after) or _huge(after):
+        after = [[987654321, 1]]
+      lits.append("HLev %s %s %s %s %s %s" % (
+        L.boolean(spec["elt"] == "q"), ql(vals), L.option(st[2], L.nat),
+        obs_lit(so["lev"], lambda v: "(%s, %s)" % (ql(v["num"]), q(v["err"]))), obs_lit(so["pc"], pc_lit), ql(after)))
+      if st[0] == "levpc" and "num" in so["lev"] and spec["elt"] == "q":
+        lits.append("HPc %s %s %s %s" % (ql(so["lev"]["num"]), ql([[1, 1]]),
+                                        obs_lit(so["pc_again"], pc_lit), obs_lit(so["pc_inter"], pc_lit)))
+    elif st[0] == "pc2":
+      spec = c["pcs"][st[1]]
+      lits.append("HPc %s %s %s %s" % (ql(spec["num"]), ql(spec["den"]),
+                                      obs_lit(so["pc_again"], pc_lit), obs_lit(so["pc_inter"], pc_lit)))
+  return L.lst(lits)
+
+
+def nontrivial_hist(c, o):
+  return len(c["steps"]) >= 2 and "steps" in o
+
+
+FAMILIES["hist"] = Family("hist", IMPORTS, "hcase", "corr_hist", "holds_hist", gen_hist, run_hist, lit_hist,
+                          nontrivial_hist, timeout=30)
